@@ -41,3 +41,7 @@ package audit
 //@   requires l != nil
 //@   ensures [C06 close.log-untouched] auditLog == old(auditLog)
 //@   ensures [C06 close.syncs-first] (err == nil && implements(l.w, "syncer")) ==> auditSynced == auditLog
+
+// The writer keeps no mutable state of its own besides the encoder: concurrent requests share one Writer
+// (db calls it outside db.mu), so a buffer, counter or random source added here would be raced on.
+//@ layout [C06,C14 audit-writer-has-no-state-of-its-own] Writer { w io.Writer; enc *json.Encoder }
